@@ -4,6 +4,8 @@ import (
 	"encoding/json"
 	"fmt"
 	"os"
+	"regexp"
+	"strconv"
 	"strings"
 )
 
@@ -36,7 +38,69 @@ func composerStability(s string) (int64, bool) {
 	return intField(pr.Val, "stability")
 }
 
+// rpmSimple: the sub-grammar on which go-univers' rpm comparison coincides with rpmvercmp:
+// [epoch:] D(.D)* [~L+D*] [-D[.L+D*]]
+var rpmSimpleRe = regexp.MustCompile(`^(\d+:)?\d+(\.\d+)*(~[A-Za-z]+\d*)?(-\d+(\.[A-Za-z]+\d*)?)?$`)
+
+func rpmSimple(s string) bool { return rpmSimpleRe.MatchString(strings.TrimSpace(s)) }
+
+// mavenCore: the sub-grammar on which go-univers' maven comparison coincides with
+// ComparableVersion: N(.N){0,3} optionally followed by one known pre-release qualifier with a
+// glued number (or the aliases a/b/m directly followed by digits), joined by '.' or '-', the
+// number before the qualifier not being 0, every number of at most 18 digits.
+var mavenCoreRe = regexp.MustCompile(`(?i)^((\d{1,18})(\.\d{1,18}){0,3})([.-]((alpha|beta|milestone|rc|cr|snapshot)\d{0,18}|[abm]\d{1,18}))?$`)
+
+func mavenCore(s string) bool {
+	m := mavenCoreRe.FindStringSubmatch(strings.TrimSpace(s))
+	if m == nil {
+		return false
+	}
+	if m[4] != "" {
+		parts := strings.Split(m[1], ".")
+		if n, err := strconv.ParseUint(parts[len(parts)-1], 10, 64); err == nil && n == 0 {
+			return false
+		}
+	}
+	return true
+}
+
 var findingClasses = []findingClass{
+	// pypi: local version labels are ignored by Compare
+	{"F-pypi-local-label", "C09", "pypi", func(kind string, rng string, vs []string) bool {
+		if kind != "reference-order" {
+			return false
+		}
+		for _, v := range vs {
+			if strings.Contains(v, "+") {
+				return true
+			}
+		}
+		return false
+	}},
+	// rpm: a different algorithm outside the simple sub-grammar
+	{"F-rpm-not-rpmvercmp", "C11", "rpm", func(kind string, rng string, vs []string) bool {
+		if kind != "reference-order" {
+			return false
+		}
+		for _, v := range vs {
+			if !rpmSimple(v) {
+				return true
+			}
+		}
+		return false
+	}},
+	// maven: flat element list instead of ComparableVersion's nested lists
+	{"F-maven-not-comparableversion", "C12", "maven", func(kind string, rng string, vs []string) bool {
+		if kind != "reference-order" {
+			return false
+		}
+		for _, v := range vs {
+			if !mavenCore(v) {
+				return true
+			}
+		}
+		return false
+	}},
 	// composer ^X.Y.Z with a stable base rejects non-stable versions inside its interval
 	{"F-composer-caret-stability", "C20", "composer", func(kind, rng string, vs []string) bool {
 		if kind != "not-convex" || !strings.Contains(rng, "^") || len(vs) == 0 {
